@@ -1515,19 +1515,23 @@ aiff_write_header (SF_PRIVATE *psf, int calc_length)
 
 static int
 aiff_write_tailer (SF_PRIVATE *psf)
-{	int		k ;
+{	sf_count_t	filelen ;
+	int		k ;
 
 	/* Reset the current header length to zero. */
 	psf->header.ptr [0] = 0 ;
 	psf->header.indx = 0 ;
 
-	psf->dataend = psf_fseek (psf, 0, SEEK_END) ;
+	/* The audio data ends at dataend if the header parser found it (a pad byte follows), else at the end of the file. */
+	filelen = psf_fseek (psf, 0, SEEK_END) ;
+	if (psf->dataend <= 0 || psf->dataend > filelen)
+		psf->dataend = filelen ;
+	else
+		psf_fseek (psf, psf->dataend, SEEK_SET) ;
 
-	/* Make sure tailer data starts at even byte offset. Pad if necessary. */
+	/* Make sure tailer data starts at even byte offset. The pad byte is not part of the SSND chunk. */
 	if (psf->dataend % 2 == 1)
-	{	psf_fwrite (psf->header.ptr, 1, 1, psf) ;
-		psf->dataend ++ ;
-		} ;
+		psf_fwrite (psf->header.ptr, 1, 1, psf) ;
 
 	if (psf->peak_info != NULL && psf->peak_info->peak_loc == SF_PEAK_END)
 	{	psf_binheader_writef (psf, "Em4", BHWm (PEAK_MARKER), BHW4 (AIFF_PEAK_CHUNK_SIZE (psf->sf.channels))) ;
